@@ -8,7 +8,7 @@
    modelled as the exact sum of squares; a test `LA.norm(u) <= c*LA.norm(v)` with c >= 0 is modelled
    by its square.  tol, abstol, gradtol are assumed >= 0 (documented domain). *)
 From CV Require Import Base.Tac Base.LinAlg Base.Cmp Base.QcLin.
-From Coq Require Import QArith Qcanon Qabs.
+From Coq Require Import QArith Qcanon Qabs Qround.
 From Coq Require String.
 
 Section Solve.
@@ -288,6 +288,39 @@ Definition lbfgsb_status (warnflag : Z) (task : string) : Z * string :=
   else if (warnflag =? 1)%Z then (0%Z, "Terminated due to too many function evaluations or too many iterations.")
   else (0%Z, task).
 Close Scope string_scope.
+
+(* ---------------- argument / option translation of the wrappers: the call SciPy receives ---------------- *)
+(* L_BFGS_B.solve: fmin_l_bfgs_b(func, x0, fprime = gradfunc, approx_grad = (1 if gradfunc is None else 0), **kwargs):
+   every documented keyword (m, factr, pgtol, epsilon, iprint, maxfun, maxiter, disp, maxls, bounds, callback, args) is handed on
+   under its own name with its own value; nothing is renamed, rescaled or defaulted *)
+Record lb_call := mk_lb { lb_fprime_given : bool; lb_approx_grad : Z; lb_options : list (string * Q) }.
+Definition lbfgsb_call (grad_given : bool) (kwargs : list (string * Q)) : lb_call :=
+  mk_lb grad_given (if grad_given then 0%Z else 1%Z) kwargs.
+(* LS.solve: least_squares(func, x0, jac = jacfun, method = method, loss = loss, xtol = tol, max_nfev = int(maxit));
+   ftol, gtol and every other option keep SciPy's defaults (none is passed) *)
+Record ls_call := mk_lsc { lsc_method : string; lsc_loss : string; lsc_options : list (string * Q) }.
+Import String.StringSyntax.
+Open Scope string_scope.
+Definition ls_translate (method loss : string) (tol maxit : Q) : ls_call :=
+  mk_lsc method loss [("max_nfev", inject_Z (Qfloor maxit)); ("xtol", tol)].
+Close Scope string_scope.
+(* minimize.solve / maximize.solve: opt.minimize(func, x0, jac = gradfunc, method = method, **kwargs) *)
+Record mz_call := mk_mz { mz_method : option string; mz_jac_given : bool; mz_options : list (string * Q) }.
+Definition minimize_call (method : option string) (grad_given : bool) (kwargs : list (string * Q)) : mz_call := mk_mz method grad_given kwargs.
+
+Definition opt_eqb_list (a b : list (string * Q)) : bool :=
+  list_eqb (fun u v => String.eqb (fst u) (fst v) && Qeq_bool (snd u) (snd v)) a b.
+(* the recorded call (options sorted by name by the harness, numeric ones) equals the model's *)
+Definition check_lbfgsb_call (grad_given : bool) (kwargs : list (string * Q)) (obs_fprime : bool) (obs_approx : Z) (obs_opts : list (string * Q)) : bool :=
+  let c := lbfgsb_call grad_given kwargs in
+  Bool.eqb (lb_fprime_given c) obs_fprime && Z.eqb (lb_approx_grad c) obs_approx && opt_eqb_list (lb_options c) obs_opts.
+Definition check_ls_call (method loss : string) (tol maxit : Q) (obs_method obs_loss : string) (obs_opts : list (string * Q)) : bool :=
+  let c := ls_translate method loss tol maxit in
+  String.eqb (lsc_method c) obs_method && String.eqb (lsc_loss c) obs_loss && opt_eqb_list (lsc_options c) obs_opts.
+Definition check_minimize_call (method : option string) (grad_given : bool) (kwargs : list (string * Q))
+           (obs_method : option string) (obs_jac : bool) (obs_opts : list (string * Q)) : bool :=
+  let c := minimize_call method grad_given kwargs in
+  opt_eqb String.eqb (mz_method c) obs_method && Bool.eqb (mz_jac_given c) obs_jac && opt_eqb_list (mz_options c) obs_opts.
 
 (* ================= instance at Qc and the comparison functions of the harness ================= *)
 Definition qc_leb (a b : Qc) : bool := Qle_bool (this a) (this b).
